@@ -39,12 +39,16 @@ THEOREMS = [
     "Ural.Props.C02.canonicalize_idempotent_of_pathIdem",
     "Ural.Props.C02.canonicalize_idempotent_partial",
     "Ural.Props.C02.canonicalize_idempotent",
-    "Ural.Props.C02.idempotent_fails_outside",
     "Ural.Props.C02.protoLetters_https",
     "Ural.CanonIdem.pathIdem",
     "Ural.CanonIdem.cleanUrl_printed_id",
     "Ural.CanonIdem.canonParts_reparsed",
-    "Ural.Props.C01.canonicalize_reparse_partial",
+    "Ural.Props.C01.canonicalize_reparse",
+    "Ural.Props.C01.canonicalize_accepts_iff",
+    "Ural.CanonIdem.printed_last",
+    "Ural.CanonIdem.noSpace_safelyUnquote",
+    "Ural.CanonRoundTrip.userinfoBrackets_printed",
+    "Ural.BracketHost.bracketedHostOk_canon",
     "Ural.Props.C01.urlsplit_urlunsplit",
     "Ural.Props.C01.accessors_unsplitNetloc",
 ]
@@ -60,8 +64,8 @@ RULE = (
     "round trips. Both spellings also go through the model-vs-implementation comparison. "
     "Non-trivial = the transformation changed the string and canonicalize changed the base; "
     "distinct = distinct (base, variant, options). Whole-function idempotence is also explored on raw "
-    "strings (cases with `idem`): the witnesses of the side conditions of canonicalize_idempotent_partial "
-    "and a sample of the netloc torture strings of harness/urlrt.py without brackets. The parser/printer "
+    "strings (cases with `idem`): the former witnesses of the side conditions of canonicalize_idempotent_partial "
+    "(now fixed) and a sample of the netloc torture strings of harness/urlrt.py (brackets included). The parser/printer "
     "round trip streams of harness/urlrt.py (model parseUrl and whole-string canonicalizeUrl vs CPython / "
     "ural) run on both spellings of every case."
 )
@@ -83,10 +87,13 @@ UNPROVED = (
     "(canonPath factors through the resolved view); escape-equivalence (unquote_respects_equiv: %41 vs A, raw "
     "space vs %20, a non-ASCII character vs its escaped UTF-8 bytes). Whole function: idempotence in "
     "unquoted mode is a theorem about the URL STRING (canonicalize_idempotent_partial / canonicalize_idempotent, "
-    "parser = the Lean model of urlsplit + accessors, compared with CPython on every run), under explicit side "
-    "conditions: default protocol of 1-64 letters, the bracket conditions of C01, no '%' in the host, an "
-    "authority is printed, the result does not end with white space; FullIdempotent is false outside "
-    "(idempotent_fails_outside; KF-C02-2, KF-C02-3 are the implementation's failures there). NOT theorems: "
+    "parser = the Lean model of urlsplit + accessors, compared with CPython on every run) for every string the "
+    "function accepts, under two explicit side conditions: default protocol of 1-64 letters (PROTOCOL_RE must "
+    "recognise it again) and no '%' in the parsed host (the accessor lower-cases the host while the cleaning pass "
+    "upper-cases escapes: the implementation IS idempotent there - witnesses in the corpus - but the proof would "
+    "need the idna decoder to be insensitive to the case of hex digits after '%'). The former side conditions on "
+    "brackets, on a printed authority and on a result ending with white space are gone (they were KF-C01-1/2, "
+    "KF-C02-3, KF-C02-2, now fixed: printed_last, printSplit_normal). NOT theorems: "
     "whole-function idempotence in quoted mode and the whole-function spelling-insensitivity / mode round "
     "trips, which compose the component theorems with the re-parse of the printed URL; punycode vs Unicode spelling of a label beyond the host rule's idempotence (idna codec "
     "abstract). These are decided on every run by the oracle over every transformation of the statement and "
@@ -132,7 +139,10 @@ def _mk(p, T, tseed, quoted, sf):
 
 
 IDEM_CORPUS = [
-    "http://a.com\xa0/", "http://A1 /", "http://a.com\u2028?", "custom:///p", "zz://?q", "http:///p", "http://@/p",
+    # FX-C02-16f182c (formerly KF-C02-2), FX-C02-f918741 (KF-C02-3), FX-C01-feb1ed1, FX-C01-ca9f3e6
+    "http://a.com\xa0/", "http://A1 /", "http://a.com\u2028?", "http://a.com\u3000:80/", "https://u@a.com\xa0:443?#",
+    "http://[v1.x\xa0]/", "custom:///p", "zz://?q", "custom://", "http://[v1.[]/", "http://x[v1.[]/", "http://[V1.x]/",
+    "http://u[::1%7A]@a.com/", "http:///p", "http://@/p",
     "http://a%ABb.com/", "http://[::1%7A]:80/", "http://u:p@a.com:80/a/../b%2Fc/?k=%26#f%20", "svn+ssh://a.com/p",
 ]
 CORPUS = [
@@ -149,12 +159,12 @@ def cases(rng, tier):
         for quoted, sf in OPTS:
             for t in TN:
                 yield _mk(urlgen.with_(b, segments=segs, query=q), [t], 1, quoted, sf)
-    # whole-function idempotence on raw strings: the witnesses of the side conditions of
-    # canonicalize_idempotent_partial, then netloc torture strings without brackets
+    # whole-function idempotence on raw strings: the former witnesses of the side conditions of
+    # canonicalize_idempotent_partial, then netloc torture strings
     for u in IDEM_CORPUS:
         for quoted, sf in OPTS:
             yield dict(_mk({"raw": u}, [], 0, quoted, sf), idem=True)
-    tort = [u for u in urlrt.torture(random.Random(rng.randrange(1 << 30)), "quick") if "[" not in u and "]" not in u]
+    tort = list(urlrt.torture(random.Random(rng.randrange(1 << 30)), "quick"))
     step = 1 if tier == "thorough" else 4
     for i, u in enumerate(tort[::step]):
         quoted, sf = OPTS[i % 4]
@@ -211,7 +221,7 @@ def impl(case):
 
 def _parses(u):
     try:
-        return cc.parse(cc.clean_impl(u, "https")) is not None
+        return cc.parse_canon(cc.clean_impl(u, "https")) is not None
     except Exception:  # noqa
         return False
 
@@ -274,38 +284,6 @@ def kf_mode_roundtrip_raw_delim(case, failure):
             if "=" in item and "=" in item.split("=", 1)[1]:
                 return True
     return False
-
-
-def _first_output(case):
-    from ural import canonicalize_url as canon
-
-    v = variant(case)
-    if v is None:
-        return None
-    try:
-        return canon(v[0], quoted=case["quoted"], strip_fragment=case["strip_fragment"])
-    except Exception:  # noqa
-        return None
-
-
-def kf_result_ends_with_space(case, failure):
-    """KF-C02-2: the printed result ends with a white-space character (a host ending with a
-    space / no-break space / line separator and nothing printed after it, e.g.
-    'http://a.com\xa0/' -> 'http://a.com\xa0'): the second call strips it as surrounding
-    white space.  Outside canonicalize_idempotent_partial by its hypothesis `hlast`."""
-    c = _first_output(case)
-    return "not idempotent" in failure and c is not None and c[-1:].isspace()
-
-
-def kf_no_authority_printed(case, failure):
-    """KF-C02-3: an unknown scheme with an empty authority ('custom:///p', 'zz://?q'):
-    urlunsplit prints 'custom:/p' without '//', which the second call no longer recognises
-    as having a protocol ('https://custom/p').  Outside canonicalize_idempotent_partial by its
-    hypothesis `hnl`."""
-    import re
-
-    c = _first_output(case)
-    return "not idempotent" in failure and c is not None and re.match(r"^[a-zA-Z][a-zA-Z0-9+.-]*:(?!//)", c) is not None
 
 
 def nontrivial(case):
